@@ -115,8 +115,15 @@ func (c *Chain) Deliver(b *Block) Result {
 
 	res := Result{Stage: "stored", Node: n}
 	oldTip := c.Tip
-	for {
-		best := c.bestCandidate()
+	for first := true; ; first = false {
+		var best *Node
+		if first && prev == c.Tip {
+			// fast path (same result as the general search): a block extending the tip has strictly more
+			// work than every other known block, because the tip is a maximum and work per block is > 0
+			best = n
+		} else {
+			best = c.bestCandidate()
+		}
 		if best == c.Tip {
 			break
 		}
